@@ -4,6 +4,7 @@ import (
 	"fmt"
 	"go/ast"
 	"go/types"
+	"strings"
 
 	"golang.org/x/tools/go/packages"
 
@@ -70,6 +71,14 @@ func ruleCtxProvenance() check.Rule {
 					case !e.WithCtx:
 						c.Report(armed, key, e.Node.Pos(), "context-less %s notification inside a subscribe closure: the observer receives context.Background()", model.SlotNames[e.Kind])
 					case e.CtxArg != nil:
+						if inSourceSlot(e.Ctx) && sc.Ctx0 != nil && reachesOnlySubscriberCtx(m, e.Pkg, e.CtxArg, e.Node, sc.Ctx0) {
+							c.Inc("slot_ctx_sinks", 1)
+							c.Report(armed, key, e.Node.Pos(), "%s notification sent from inside a source callback carries the subscription-time context %s instead of (a context derived from) the one the callback received: values attached upstream per notification (context operators, context-aware callbacks) are not visible downstream", model.SlotNames[e.Kind], sc.Ctx0.Name())
+							continue
+						}
+						if inSourceSlot(e.Ctx) {
+							c.Inc("slot_ctx_sinks", 1)
+						}
 						report(armed, key, e.Node, cp.classify(e.Pkg, e.CtxArg, e.Node, 0), model.SlotNames[e.Kind]+" notification")
 					}
 				}
@@ -677,6 +686,75 @@ func inUnsetBranch(m *model.Model, p *packages.Package, call ast.Node, root ast.
 		}
 		if flagVal != sv {
 			return true
+		}
+	}
+	return false
+}
+
+// inSourceSlot: the nearest enclosing non-body context is a source slot.
+func inSourceSlot(cx *model.Ctx) bool {
+	for ; cx != nil; cx = cx.Parent {
+		if cx.Kind == model.KBody {
+			continue
+		}
+		return cx.Kind == model.KSrc
+	}
+	return false
+}
+
+// reachesOnlySubscriberCtx: the context operand e used at node `at` is, on every path, the subscriber context ctx0
+// itself or context.With*(...) of it. For a variable the unique reaching definition is used when one assignment in the
+// same function lies on every path to the use and no other assignment follows it; otherwise the answer is false
+// (flow-insensitive provenance stays in charge).
+func reachesOnlySubscriberCtx(m *model.Model, p *packages.Package, e ast.Expr, at ast.Node, ctx0 *types.Var) bool {
+	info := p.TypesInfo
+	for depth := 0; depth < 8; depth++ {
+		switch x := ast.Unparen(e).(type) {
+		case *ast.CallExpr:
+			cl := model.Callee(info, x)
+			if cl != nil && cl.Pkg() != nil && cl.Pkg().Path() == "context" && strings.HasPrefix(cl.Name(), "With") && len(x.Args) > 0 {
+				e = x.Args[0]
+				continue
+			}
+			return false
+		case *ast.Ident:
+			v, ok := objOf(info, x).(*types.Var)
+			if !ok {
+				return false
+			}
+			if v == ctx0 && len(m.Defs[v]) == 0 {
+				return true
+			}
+			fn := innermostFunc(m, p, at)
+			body := funcBody(fn)
+			if body == nil {
+				return false
+			}
+			// assignments to v inside fn, before the use
+			var last *model.DefSite
+			for i := range m.Defs[v] {
+				d := &m.Defs[v][i]
+				if d.Node == nil || d.Expr == nil || !(body.Pos() <= d.Node.Pos() && d.Node.End() <= body.End()) || d.Node.Pos() >= at.Pos() {
+					continue
+				}
+				if innermostFunc(m, p, d.Node) != fn {
+					continue
+				}
+				if last == nil || d.Node.Pos() > last.Node.Pos() {
+					last = d
+				}
+			}
+			if last == nil {
+				return false
+			}
+			dn := last.Node
+			if !pathsPassBefore(body, at, func(n ast.Node) bool { return n.Pos() <= dn.Pos() && dn.End() <= n.End() }) {
+				return false
+			}
+			e, at = last.Expr, last.Node
+			continue
+		default:
+			return false
 		}
 	}
 	return false
